@@ -16,12 +16,14 @@ func init() { props["C10"] = runC10 }
 // processed synchronously by the node's real OnConnecting handler.
 type memTransport struct{ closed *centrifuge.Disconnect }
 
-func (t *memTransport) Name() string                                { return "verif-mem" }
-func (t *memTransport) Protocol() centrifuge.ProtocolType           { return centrifuge.ProtocolTypeJSON }
-func (t *memTransport) ProtocolVersion() centrifuge.ProtocolVersion { return centrifuge.ProtocolVersion2 }
-func (t *memTransport) Unidirectional() bool                        { return true }
-func (t *memTransport) Emulation() bool                             { return false }
-func (t *memTransport) DisabledPushFlags() uint64                   { return 0 }
+func (t *memTransport) Name() string                      { return "verif-mem" }
+func (t *memTransport) Protocol() centrifuge.ProtocolType { return centrifuge.ProtocolTypeJSON }
+func (t *memTransport) ProtocolVersion() centrifuge.ProtocolVersion {
+	return centrifuge.ProtocolVersion2
+}
+func (t *memTransport) Unidirectional() bool      { return true }
+func (t *memTransport) Emulation() bool           { return false }
+func (t *memTransport) DisabledPushFlags() uint64 { return 0 }
 func (t *memTransport) PingPongConfig() centrifuge.PingPongConfig {
 	return centrifuge.PingPongConfig{PingInterval: -1}
 }
